@@ -14,5 +14,5 @@ def obligations(tier: str) -> list[Ob]:
     obs = skeleton_obs("C03", "endpoint", ["req_"], tier, label="request")
     for o in obs:
         if o.name == "request:multipart":
-            o.params["finding_by_func"] = {"req_post_parts_files": "C03-F1", "req_header_union": "C03-F2"}
+            o.params["finding_by_func"] = {"req_post_parts_files": "C03-F1", "req_header_union": "C03-F2", "req_content_param": "C03-F3"}
     return obs
